@@ -5,6 +5,7 @@ mod cli;
 mod clock;
 mod comp;
 mod desc;
+mod edge;
 mod engine;
 mod exec;
 mod hist;
